@@ -17,6 +17,8 @@ Definition sizeof_yr_fat_header_t : Z := 8.
 Definition sizeof_yr_fat_arch_64_t : Z := 32.
 Definition sizeof_yr_fat_arch_32_t : Z := 20.
 Definition sizeof_dex_header_t : Z := 112.
+Definition sizeof_WORD : Z := 2.
+Definition sizeof_DWORD : Z := 4.
 Definition off_nt_optional_header : Z := 24.
 
 (* #define fits_in_pe(pe, pointer, size) ((size_t)(size) <= pe->data_size && (uint8_t* ) (pointer) >= pe->data && (uint8_t* ) (pointer) <= pe->data + pe->data_size - (size)) *)
@@ -49,3 +51,27 @@ Definition macho_fat_arch_ok (size offset asize : Z) : bool :=
 (* while (i < yr_min( yr_le16toh(pe->header->FileHeader.NumberOfSections), MAX_PE_SECTIONS)) *)
 Definition pe_rva_loop_cond (i number_of_sections : Z) : bool :=
   (u_lt i (if (u_lt number_of_sections MAX_PE_SECTIONS) then number_of_sections else MAX_PE_SECTIONS)).
+
+(* ---- pe_parse_exports (modules/pe/pe.c): counts, table guards, index bounds of the indexed accesses *)
+Definition MAX_PE_EXPORTS : Z := 16384.
+(* number_of_exports = yr_min( yr_le32toh(exports->NumberOfFunctions), MAX_PE_EXPORTS) *)
+Definition exp_number_of_exports (nfun_raw : Z) : Z :=
+  (if (u_lt nfun_raw MAX_PE_EXPORTS) then nfun_raw else MAX_PE_EXPORTS).
+(* number_of_names = yr_min( yr_le32toh(yr_le32toh(exports->NumberOfNames)), number_of_exports) *)
+Definition exp_number_of_names (nexp nn_raw : Z) : Z :=
+  (if (u_lt nn_raw nexp) then nn_raw else nexp).
+(* rejected when: avail < sizeof(WORD) * number_of_exports   [avail = bytes from ordinals to the end of the data] *)
+Definition exp_ordinals_rejects (avail nexp nnames nn_raw : Z) : bool :=
+  (u_lt avail (u_mul 64 sizeof_WORD nexp)).
+(* rejected when: avail < sizeof(DWORD) * number_of_exports   [avail = bytes from function_addrs to the end of the data] *)
+Definition exp_functions_rejects (avail nexp nnames nn_raw : Z) : bool :=
+  (u_lt avail (u_mul 64 sizeof_DWORD nexp)).
+(* rejected when: yr_le32toh(exports->NumberOfNames) * sizeof(DWORD) > avail   [avail = bytes from names to the end of the data] *)
+Definition exp_names_rejects (avail nexp nnames nn_raw : Z) : bool :=
+  (u_gt (u_mul 64 nn_raw sizeof_DWORD) avail).
+(* ordinals[index] is evaluated at 1 place(s); the index is known to be below: number_of_exports *)
+Definition exp_ordinals_index_bound (nexp nnames : Z) : Z := nexp.
+(* function_addrs[index] is evaluated at 2 place(s); the index is known to be below: number_of_exports | number_of_exports *)
+Definition exp_functions_index_bound (nexp nnames : Z) : Z := (Z.max nexp nexp).
+(* names[index] is evaluated at 1 place(s); the index is known to be below: number_of_exports and number_of_names *)
+Definition exp_names_index_bound (nexp nnames : Z) : Z := (Z.min nexp nnames).
